@@ -149,6 +149,22 @@ def scenario_pairs(name):
     yield a, fdl.Config(shared_defaults, u=one, w=one), True
     yield fdl.Config(shared_defaults, n=3), fdl.Config(shared_defaults, n=3, u=Tok(0), w=Tok(0)), False
     yield fdl.Config(shared_defaults, u=Tok(0), w=Tok(0)), fdl.Config(shared_defaults, u=Tok(0), w=Tok(0)), True
+  elif name == 'leaf_vs_buildable':
+    # one parameter holds a plain leaf (a number, None, a container, nothing at all) on one side and a
+    # sub-Buildable on the other: == answers False in BOTH directions and never raises
+    f = graphs.node_fn(1, 0)
+    g = graphs.node_fn(2, 0)
+    for sub in (fdl.Config(g, p=1), fdl.Partial(g, p=1), fdl.Config(f)):
+      mk = lambda: fdl.Config(f, p=copy.deepcopy(sub), q=2)
+      for other in (lambda: fdl.Config(f, p=1, q=2), lambda: fdl.Config(f, q=2), lambda: fdl.Config(f, p=None, q=2),
+                    lambda: fdl.Config(f, p=[1], q=2), lambda: fdl.Config(f, p=(copy.deepcopy(sub),), q=2),
+                    lambda: fdl.Config(f, p=Tok(0), q=2)):
+        yield mk(), other(), False
+        yield other(), mk(), False
+      yield fdl.Config(f, p=[copy.deepcopy(sub), 1]), fdl.Config(f, p=[1, copy.deepcopy(sub)]), False
+      yield fdl.Config(f, p={'k': copy.deepcopy(sub)}), fdl.Config(f, p={'k': 1}), False
+      yield fdl.Config(f, p={'k': 1}), fdl.Config(f, p={'k': copy.deepcopy(sub)}), False
+      yield mk(), mk(), True
   elif name == 'late_registration':
     f = graphs.node_fn(1, 0)
     x1 = [1]
@@ -172,6 +188,7 @@ def cases(tier, r):
   yield 'scenario', {'scenario': 'mixed_containers', 'seed': 0}
   yield 'scenario', {'scenario': 'default_alias', 'seed': 0}
   yield 'scenario', {'scenario': 'transitive_mixed', 'seed': 0}
+  yield 'scenario', {'scenario': 'leaf_vs_buildable', 'seed': 0}
   # the same scenarios again after a comparison that RAISED earlier in the thread (an array-like
   # leaf): == keeps no state from one comparison to the next
   for name in ('shared_defaults', 'namedtuple_subclass', 'mixed_containers'):
